@@ -810,6 +810,28 @@ func cases(tier, path string) {
 		w.decU(append(le32(crcGzip), putMessage(gzipBytes(inner))...), nil, "gzip")
 		w.decU(append(le32(crcGzip), putMessage(gzipBytes(inner))...), []reflect.Type{reflect.TypeOf([]int32{})}, "gzip")
 	}
+	// payloads that inflate to more than the 32 KiB window in which compress/flate hands out data (one Read never
+	// returns more than that, whatever the buffer): 32768 +- 4, 36 kB, 80 kB, 256 kB of vector<int>; compressible and not
+	for _, n := range []int{8189, 8190, 8191, 9000, 20000, 65536} {
+		for _, noisy := range []bool{false, true} {
+			v := append(le32(0x1cb5c415), le32(uint32(n))...)
+			x := uint32(12345)
+			for i := 0; i < n; i++ {
+				if noisy {
+					x = x*1664525 + 1013904223
+					v = append(v, le32(x)...)
+				} else {
+					v = append(v, le32(uint32(7000+i))...)
+				}
+			}
+			packed := append(le32(crcGzip), putMessage(gzipBytes(v))...)
+			w.decU(packed, []reflect.Type{reflect.TypeOf([]int32{})}, "gzip-large")
+			w.decU(append(append(le32(0xf35c6d01), []byte{1, 0, 0, 0, 2, 0, 0, 0}...), packed...), []reflect.Type{reflect.TypeOf([]int32{})}, "gzip-large")
+			if n == 9000 {
+				w.decU(packed[:len(packed)-8], []reflect.Type{reflect.TypeOf([]int32{})}, "gzip-large-cut")
+			}
+		}
+	}
 	// gzip_packed around a bare vector: the packed message is decoded with the caller's hints
 	for _, ht := range hintTypes {
 		v := g.Value(ht, 1, true)
@@ -848,6 +870,25 @@ func cases(tier, path string) {
 					w.decU(rr[:cut], []reflect.Type{ht}, "hint-in-result-mut")
 				}
 			}
+		}
+	}
+	// more (and fewer) vector ids at object positions than hints: the hint queue runs empty in the middle of the
+	// data (a used-up queue is an EMPTY slice, not a nil one), or is left with unused entries at the end
+	{
+		rrT := reflect.TypeOf([]*objects.RpcResult{})
+		i32T := reflect.TypeOf([]int32{})
+		innerVec := append(append(le32(0x1cb5c415), le32(2)...), append(le32(7), le32(9)...)...)
+		rr := func(id byte, body []byte) []byte {
+			return append(append(le32(0xf35c6d01), []byte{id, 0, 0, 0, 2, 0, 0, 0}...), body...)
+		}
+		outer := append(append(le32(0x1cb5c415), le32(2)...), append(rr(1, innerVec), rr(2, innerVec)...)...)
+		for _, hs := range [][]reflect.Type{{rrT}, {rrT, i32T}, {rrT, i32T, i32T}, {rrT, i32T, i32T, i32T}, {i32T}, {i32T, i32T}, nil} {
+			w.decU(outer, hs, "hints-run-out")
+			w.decU(rr(3, outer), hs, "hints-run-out")
+			w.decU(append(le32(crcGzip), putMessage(gzipBytes(outer))...), hs, "hints-run-out")
+			w.decU(rr(4, append(le32(crcGzip), putMessage(gzipBytes(outer))...)), hs, "hints-run-out")
+			w.decU(rr(5, rr(6, innerVec)), hs, "hints-run-out")
+			w.decU(innerVec, hs, "hints-run-out")
 		}
 	}
 	w.decU(append(le32(crcGzip), putMessage([]byte{1, 2, 3, 4, 5})...), nil, "gzip-bad")
